@@ -180,7 +180,7 @@ func parsePut(ws []string) (*putOp, bool) {
 		}
 		p.faultKind, p.faultArg = parts[0], parts[1]
 		switch p.faultKind {
-		case "save", "rstore":
+		case "save", "rstore", "sunlink", "runlink":
 			if !okLogical(p.faultArg) {
 				return nil, false
 			}
@@ -356,6 +356,29 @@ func (w *world) setup(p *putOp) {
 			}
 		}
 		w.ctl.AddFault(sched.FaultRule{Op: "store", ArgSuffix: real(p.faultArg), Nth: nth})
+	case "sunlink", "runlink":
+		// the ignored cleanUpFile at the top of storeFileOnDisk fails (the file cannot be unlinked) while
+		// create/write succeed. Count the hooked removes of this path that come first: CleanAll's (only the
+		// two files go through cleanUpFile) and, for the restore, the one of the save.
+		nth := 1
+		if p.ep == "apply_flows" && (p.faultArg == "g" || p.faultArg == "um") {
+			nth++
+		}
+		if p.faultKind == "runlink" {
+			for _, it := range p.items {
+				if it.logical == p.faultArg && it.tok != "@" {
+					nth++
+				}
+			}
+			// Restore() stores only backed-up paths; its second loop REMOVES added files through the same
+			// hook, and a failure there is a genuine restore failure (not this fault point)
+			if _, err := os.Stat(real(p.faultArg)); err != nil {
+				nth = 0
+			}
+		}
+		if nth > 0 {
+			w.ctl.AddFault(sched.FaultRule{Op: "remove", ArgSuffix: real(p.faultArg), Nth: nth})
+		}
 	case "haproxy":
 		n, _ := strconv.Atoi(p.faultArg)
 		w.ha.set(n)
